@@ -87,7 +87,11 @@ fn explore(api: &Api, seed: u64, cx: &mut Cx) {
                             let (ke2, sst) = match api.slogin_start(&mut t, &Blob::n(sb), Some(&Blob::n(&reg.file)), &Blob::n(&ke1), b"alice", o(ctx), o(idu), o(&sids)) {
                                 Ok(x) => x,
                                 Err(e) => {
-                                    cx.violate("server-start/error", format!("{:?}", e));
+                                    if *genuine {
+                                        cx.violate("honest-step/slogin_start", format!("{:?}", e));
+                                    } else {
+                                        cx.outcome("impostor-rejected");
+                                    }
                                     continue;
                                 }
                             };
@@ -99,10 +103,10 @@ fn explore(api: &Api, seed: u64, cx: &mut Cx) {
                                     }
                                     match api.slogin_finish(&Blob::n(&sst), &Blob::n(&fin)) {
                                         Ok(k) if k == sk => cx.outcome("genuine-accepted"),
-                                        _ => cx.violate("genuine/server-finish", "genuine server cannot complete".into()),
+                                        _ => cx.violate("honest-step/genuine-server-finish", "genuine server cannot complete".into()),
                                     }
                                 }
-                                (Err(e), true) => cx.violate("genuine/rejected", format!("login against the genuine server fails: {:?}", e)),
+                                (Err(e), true) => cx.violate("honest-step/genuine-login-rejected", format!("login against the genuine server fails: {:?}", e)),
                                 (Err(_), false) => cx.outcome("impostor-rejected"),
                                 (Ok(_), false) => {
                                     cx.outcome("IMPOSTOR-ACCEPTED");
